@@ -1,5 +1,6 @@
 import H2V.Lemmas.ConnCountsPReach
 import H2V.Lemmas.CompBasic
+import H2V.Lemmas.ConnCountsPLocal
 /-
   C05 / C18 / C19 — concrete reachable states (non-vacuity witnesses), evaluated by the kernel.
 -/
@@ -15,7 +16,7 @@ def wS1 : Streams := (wConn.streams.sendRequest false wGet true none).1
 def wS2 : Streams := (Streams.pollComplete 10 wS1 wConn.codec.w wConn.codec.io "c").1
 
 theorem wS2_reach : Reach wS2 :=
-  .step (.step (.init (.client {})) (.sendRequest _ false wGet true none)) (.pollComplete 10 _ _ _ "c")
+  .step (.step (.init (.client {} rfl)) (.sendRequest _ false wGet true none)) (.pollComplete 10 _ _ _ "c")
 
 theorem wS2_facts : wS2.panicked = none ∧ wS2.counts.numSendStreams = 1 ∧ wS2.counts.numRecvStreams = 0 ∧
     cntAll wS2 = 1 ∧ wS2.store.slab.length = 1 := by decide +kernel
@@ -49,7 +50,7 @@ def q1d : SWI := wOn (fun s => (s.innerSendReset 1 STREAM_CLOSED).1) q1c1
 def q1e : SWI := wPoll q1d
 
 theorem q1_reach : Reach q1d.1 := by
-  have h0 : Reach q1a.1 := .init (.client { resetMax := 0 })
+  have h0 : Reach q1a.1 := .init (.client { resetMax := 0 } rfl)
   have h1 : Reach q1a1.1 := wOn_reach h0 (.sendRequest _ false wPost false none)
   have h2 : Reach q1a2.1 := wOn_reach h1 (.cloneStreamRef _ 0)
   have h3 : Reach q1b.1 := wPoll_reach h2
@@ -87,7 +88,7 @@ def q3f : SWI := wOn (fun s => s.dropStreamRef 0) q3e1
 def q3g : SWI := wPoll (wOn (fun s => (s.recvWindowUpdate 0 1000).1) q3f)
 
 theorem q3_reach : Reach q3g.1 := by
-  have h0 : Reach q3a.1 := .init (.client { resetMax := 0 })
+  have h0 : Reach q3a.1 := .init (.client { resetMax := 0 } rfl)
   have h1 : Reach q3b.1 := wOn_reach h0 (.applyRemoteSettings _ [(4, 100000)] true)
   have h2 : Reach q3b1.1 := wOn_reach h1 (.sendRequest _ false wPost false none)
   have h3 : Reach q3c.1 := wPoll_reach (wOn_reach h2 (.cloneStreamRef _ 0))
@@ -112,5 +113,52 @@ theorem q3_counterexample :
     (q3g.1.prio.pendingSend, q3g.1.prio.pendingCapacity, q3g.1.prio.pendingOpen) = ([], [], []) ∧
     (q3g.1.recv.pendingWindowUpdates, q3g.1.recv.pendingAccept, q3g.1.recv.pendingResetExpired) = ([], [], []) ∧
     (wPoll q3g).1.store.slab.length = 1 := by decide +kernel
+
+-- ===================================================================== per direction
+
+/-- counted and initiated by the peer -/
+def recvCounted (sv : Bool) (x : Stream) : Bool := x.isCounted && !locId sv x.id
+
+theorem cnt_split (sv : Bool) (l : List Stream) :
+    l.countP (·.isCounted) = l.countP (sendCounted sv) + l.countP (recvCounted sv) := by
+  induction l with
+  | nil => rfl
+  | cons a l ih =>
+    simp only [List.countP_cons, ih]
+    unfold sendCounted recvCounted
+    cases a.isCounted <;> cases locId sv a.id <;> simp <;> omega
+
+/-- per-direction slot accounting in every reachable state -/
+theorem Reach.direction {s : Streams} (h : Reach s) (hp : s.panicked = none) (herr : s.counts.canIncNumLocalErrorResets = true) :
+    s.counts.numSendStreams = cntP (sendCounted s.counts.isServer) s ∧
+    s.counts.numRecvStreams = cntP (recvCounted s.counts.isServer) s := by
+  obtain ⟨hi1, hi2⟩ := h.inv.2.2 hp
+  have hd := hi2.dir herr
+  refine ⟨hd, ?_⟩
+  have hs := hi1.sum
+  unfold cntAll at hs
+  rw [cnt_split s.counts.isServer] at hs
+  unfold cntP at hd ⊢
+  omega
+
+/-- the invariants in the state right after any evolution of a reachable state -/
+theorem Reach.inv_after {s s' : Streams} (h : Reach s) (e : Ev s s') (hp : s'.panicked = none) :
+    Inv1 s' ∧ Inv2 s'.counts.isServer (fun _ => False) s' := by
+  have hp0 := noPanic_of_mono e.mono hp
+  obtain ⟨hA, _, hi⟩ := h.inv
+  obtain ⟨hi1, hi2⟩ := hi hp0
+  refine ⟨e.inv1 hp hA hi1, ?_⟩
+  rw [e.nx.role]
+  exact e.inv2 _ _ hp hA (fun _ _ h => h) hi2
+
+/-- whenever `pop_pending_open` opens a stream in a reachable state, the number of counted locally
+    initiated slab entries afterwards is within the peer's limit -/
+theorem open_within_limit {s s' : Streams} {k : Nat} (h : Reach s) (hpop : s.popPendingOpen = (s', some k))
+    (hp : s'.panicked = none) (herr : s'.counts.canIncNumLocalErrorResets = true) :
+    cntP (sendCounted s'.counts.isServer) s' ≤ s'.counts.maxSendStreams := by
+  have e : Ev s s' := .of_fst_eq hpop (popPendingOpen_ev s)
+  have hd := (h.inv_after e hp).2.dir herr
+  have := popPendingOpen_takes_slot s s' k hpop
+  rw [← hd]; omega
 
 end H2V.Lemmas.ConnCountsP
